@@ -76,12 +76,22 @@ func myCellTok(e sqlparser.Expr, nparam *int) string {
 	switch v := e.(type) {
 	case *sqlparser.NullVal:
 		return "Z"
+	case *sqlparser.ValuesFuncExpr:
+		return "O1"
+	case *sqlparser.ParenExpr:
+		return myCellTok(v.Expr, nparam)
 	case *sqlparser.SQLVal:
 		switch v.Type {
 		case sqlparser.StrVal:
 			return "L" + core.Hex(v.Val)
 		case sqlparser.HexVal:
 			b, err := hex.DecodeString(string(v.Val))
+			if err != nil {
+				return "O0"
+			}
+			return "L" + core.Hex(b)
+		case sqlparser.HexNum:
+			b, err := hex.DecodeString(strings.TrimPrefix(string(v.Val), "0x"))
 			if err != nil {
 				return "O0"
 			}
@@ -108,18 +118,39 @@ func myDescribe(parser *sqlparser.Parser, sql string) string {
 		for _, c := range s.Columns {
 			cols = append(cols, c.String())
 		}
-		vals, ok := s.Rows.(sqlparser.Values)
-		if !ok {
-			return "X"
-		}
-		for _, tup := range vals {
+		src := "V"
+		switch src0 := s.Rows.(type) {
+		case sqlparser.Values:
+			for _, tup := range src0 {
+				var cs []string
+				for _, e := range tup {
+					cs = append(cs, myCellTok(e, &np))
+				}
+				rows = append(rows, orNone(cs, ","))
+			}
+		case *sqlparser.Select:
+			src = "S"
 			var cs []string
-			for _, e := range tup {
-				cs = append(cs, myCellTok(e, &np))
+			for _, e := range src0.SelectExprs {
+				ae, ok := e.(*sqlparser.AliasedExpr)
+				if !ok {
+					return "X"
+				}
+				cs = append(cs, myCellTok(ae.Expr, &np))
 			}
 			rows = append(rows, orNone(cs, ","))
+		default:
+			return "X"
 		}
-		return "I:" + s.Table.Name.String() + ":" + orNone(cols, ",") + ":" + orNone(rows, ";") + ":_"
+		tok := "I:" + s.Table.Name.String() + ":" + orNone(cols, ",") + ":" + orNone(rows, ";") + ":_"
+		if len(s.OnDup) > 0 || src == "S" {
+			var sets []string
+			for _, e := range s.OnDup {
+				sets = append(sets, e.Name.Name.String()+"="+myCellTok(e.Expr, &np))
+			}
+			tok += ":" + orNone(sets, ",") + ":" + src
+		}
+		return tok
 	case *sqlparser.Update:
 		if len(s.TableExprs) != 1 {
 			return "X"
